@@ -149,8 +149,13 @@ impl CraneliftCompiler {
             builder.finalize();
         }
 
-        self.module.define_function(func_id, &mut ctx).unwrap();
-        self.module.finalize_definitions().unwrap();
+        // Cranelift refuses some programs (e.g. too large for its code generator): report it
+        self.module
+            .define_function(func_id, &mut ctx)
+            .map_err(|e| Error::new(ErrorKind::Other, format!("[CRANELIFT] Error: {e}")))?;
+        self.module
+            .finalize_definitions()
+            .map_err(|e| Error::new(ErrorKind::Other, format!("[CRANELIFT] Error: {e}")))?;
         self.module.clear_context(&mut ctx);
 
         Ok(CraneliftProgram::new(self.module, func_id))
